@@ -67,7 +67,9 @@ _FAN = [(NX, "NxscopeHandler", f) for f in ("__init__", "_stream_thread", "strea
                                             "stream_start", "stream_stop", "_reset_stats", "connect")] + \
        [(COMM, "CommHandler", f) for f in ("__init__", "stream_data", "_recv_thread", "_get_stream_frame", "ch_is_enabled", "_channels_init")] + \
        [(DEV, "DeviceChannel", "__init__"), (DEV, "Device", "channel_get"), (PA, "Parser", "frame_stream_decode")] + \
-       [(THR, "ThreadCommon", f) for f in ("_thread_loop", "thread_start", "thread_stop")]
+       [(THR, "ThreadCommon", f) for f in ("_thread_loop", "thread_start", "thread_stop")] + \
+       [(COMM, "CommHandler", "_read_hdr"), (COMM, "CommHandler", "_read_frame"), (II, "CommInterfaceCommon", "read"),
+        (PA, "Parser", "frame_is_stream")] + _SERIAL
 _STREAMDEC = [(PA, "Parser", f) for f in ("_stream_data_get", "frame_stream_decode")] + \
              [(IP, None, f) for f in ("dsfmt_get", "msfmt_get")]
 _STREAMENC = [(PR, "ParseRecv", f) for f in ("_stream_bytes_get", "_stream_data_encode", "frame_stream_encode")]
